@@ -245,7 +245,11 @@ func cmdRun(args []string) int {
 	var unlisted []violationRec
 	for _, v := range merged.Violations {
 		code, out := replayFresh(ws, v.Replay, true)
-		if code != 1 {
+		want := 1
+		if v.Known != "" {
+			want = 4
+		}
+		if code != want {
 			fmt.Fprintf(os.Stderr, "simcheck: harness determinism trouble: minimised replay %s did not reproduce in a fresh process (exit %d)\n%s\n", v.Replay, code, clipStr(out, 3000))
 			return 2
 		}
